@@ -195,8 +195,12 @@ impl Vm {
   pub(super) fn queue_blocked_fiber(&mut self, mut waiter: Ref<ChannelWaiter>) {
     match waiter.get_waiter_mut::<Ref<Fiber>>() {
       Some(fiber) => {
-        fiber.unblock();
-        self.fiber_queue.push_back(*fiber)
+        // a channel can hand back a stale waiter: only a parked fiber
+        // is woken and a fiber is only ever queued once
+        if (fiber.is_blocked() || fiber.is_pending()) && !self.fiber_queue.contains(fiber) {
+          fiber.unblock();
+          self.fiber_queue.push_back(*fiber)
+        }
       },
       None => self.internal_error("Unable to find fiber"),
     }
